@@ -49,7 +49,8 @@ def configs(tier):
         out.append({"w1": 1, "ids": 3, "W": 5, "Ks": (80, 100, 120)})
         out.append({"w1": 1, "ids": 3, "presize": 3, "W": 5, "Ks": (80, 100, 120)})
         out.append({"w1": 2, "ids": 3, "inspect": "flush", "W": 5, "Ks": (90, 110)})
-        out.append({"w1": 1, "w2": 1, "ids": 3, "W": 5, "Ks": (110, 130, 150), "context_bound": 2})
+        # (two writers + the full inspection phase was tried with a context bound of 2: the unrolling at K >= 110 did not fit the
+        # memory / time budget of a configuration, so the inspection phase is decided with one writer process doing <= 2 writes)
     return out
 
 
